@@ -277,6 +277,22 @@ def method_sequences(chk, drv, n):
                             problem = 'a call with one argument too many was accepted'
                         except Exception:
                             pass
+                    # a call refused *late* (an unrepresentable value in a later argument or deep inside one), written through the same
+                    # method object into a scratch stream: whatever the writer had prepared for it must not reach the next call
+                    if rng.random() < 0.7:
+                        js = list(range(len(tys)))
+                        rng.shuffle(js)
+                        js.sort(key=lambda j: j == 0)                      # later arguments first
+                        for j in js:
+                            bad = make_unrepresentable(rng, tys[j], calls[ci][j])
+                            if bad:
+                                vals = list(calls[ci])
+                                vals[j] = bad[0]
+                                try:
+                                    m.write_to_stream(io.BytesIO(), *[py_of(t, v) for t, v in zip(tys, vals)])
+                                except Exception:
+                                    chk.dist('method-sequences:late-refusal')
+                                break
                 data = s.getvalue()
                 if data != b''.join(singles[i] for i in order):
                     problem = problem or 'the bytes of %d calls through one method object are not the concatenation of the single encodings (%d vs %d bytes)' % (
